@@ -400,7 +400,10 @@ class Negotiation(protocol.Protocol):
             # (the next block, or the first Banana tokens) happens to have
             # arrived in the same packet
             eoh = self.buffer.find(b'\r\n\r\n')
-            if eoh > 4096 or (eoh == -1 and len(self.buffer) > 4096):
+            # without a terminator we can only give up once one that starts
+            # within the limit can no longer be completed by the next packet
+            # (up to three of its four bytes may already be here)
+            if eoh > 4096 or (eoh == -1 and len(self.buffer) >= 4096 + 4):
                 raise BananaError("Header too long")
             if eoh == -1:
                 return
